@@ -62,6 +62,9 @@ type LeafSpec struct {
 	Style  int           `json:"style,omitempty"`
 	N      int           `json:"n"`                // retry budget (>=1)
 	WaitMs int           `json:"wait_ms,omitempty"` // retry wait (virtual time)
+	// ErrRes: Result-style functions report a failure as (flyt.NewErrorResult(err), err)
+	// instead of (flyt.Result{}, err) - both are legitimate ways to return a Go error.
+	ErrRes bool `json:"err_res,omitempty"`
 	Visits []VisitScript `json:"visits"`            // visit v uses Visits[v % len]
 }
 
@@ -187,7 +190,7 @@ type Pair struct {
 	B int
 }
 
-const numPayKinds = 8
+const numPayKinds = 11
 
 func mkPayload(kind int, tag string) any {
 	switch kind % numPayKinds {
@@ -205,8 +208,14 @@ func mkPayload(kind int, tag string) any {
 		return []any{tag, 1}
 	case 6:
 		return Pair{A: tag, B: len(tag)}
-	default:
+	case 7:
 		return []int{len(tag), 2, 3}
+	case 8:
+		return (*Tok)(nil) // typed nils must keep their dynamic type
+	case 9:
+		return map[string]any(nil)
+	default:
+		return []string(nil)
 	}
 }
 
@@ -244,6 +253,11 @@ func mkErr(flavor int, tag string) error {
 		return &PtrErr{Tag: tag}
 	case 4:
 		return ValErr{Tag: tag}
+	case 7:
+		// an attempt's own inner timeout: wraps a context error although the run's context is live
+		return fmt.Errorf("attempt timed out [%s]: %w", tag, context.DeadlineExceeded)
+	case 8:
+		return fmt.Errorf("attempt aborted [%s]: %w", tag, context.Canceled)
 	default:
 		return errors.New("sentinel:" + tag)
 	}
@@ -399,7 +413,13 @@ func (x *wfExec) prep(ctx context.Context, leaf int, store *flyt.SharedStore) (a
 	x.visits[leaf]++
 	x.attempt[leaf] = 0
 	x.fuel--
+	runaway := x.fuel < -(3*x.sc.Fuel + 60)
 	x.mu.Unlock()
+	if runaway {
+		// every post answers "halt" once the fuel is used up and "halt" is never connected, so a
+		// correct flow ends within a few visits; this is a flow that does not stop
+		panic(fmt.Sprintf("runaway flow: %d node runs after the fuel (%d) was exhausted", -x.fuel, x.sc.Fuel))
+	}
 	seq := x.begin(Ev{Leaf: leaf, Visit: visit, Phase: "prep", Store: store, Ctx: ctx})
 	o := x.sc.outcome(leaf, visit, "prep", 0)
 	var ret any
@@ -496,7 +516,11 @@ func (x *wfExec) post(ctx context.Context, leaf int, store *flyt.SharedStore, in
 	}
 	if o.Err != 0 {
 		err = mkErr(o.Err, x.tag(leaf, visit, "post", 0))
-		act = ""
+		if o.Pay%2 == 0 {
+			act = "" // Pay odd: the failing post also returns its (non-empty) action
+		} else if act == "" {
+			act = "with-error"
+		}
 	}
 	x.end(seq, nil, err, act)
 	return flyt.Action(act), err
@@ -587,6 +611,9 @@ func (x *wfExec) buildFuncLeaf(id int, l *LeafSpec, n int, w time.Duration) flyt
 	prepR := func(ctx context.Context, s *flyt.SharedStore) (flyt.Result, error) {
 		v, err := x.prep(ctx, id, s)
 		if err != nil {
+			if l.ErrRes {
+				return flyt.NewErrorResult(err), err
+			}
 			return flyt.Result{}, err
 		}
 		return flyt.NewResult(v), nil
@@ -595,6 +622,9 @@ func (x *wfExec) buildFuncLeaf(id int, l *LeafSpec, n int, w time.Duration) flyt
 	execR := func(ctx context.Context, p flyt.Result) (flyt.Result, error) {
 		v, err := x.exec(ctx, id, p.Value(), p.IsError())
 		if err != nil {
+			if l.ErrRes {
+				return flyt.NewErrorResult(err), err
+			}
 			return flyt.Result{}, err
 		}
 		if m, isMarker := v.(resErrMarker); isMarker {
